@@ -10,7 +10,7 @@ EXHAUSTIVE = {"mss 95..105 x win in {k*mss, k*(mss-12)} small grid": True}
 
 
 def generate(R, tier):
-    n = 20000 if tier == "quick" else 400000
+    n = 20000 if tier == "quick" else 2000000
     for mss in range(95, 106):
         for ver in (4, 6):
             for ts1 in (0, 7):
